@@ -348,6 +348,8 @@ def var_array(w: dict, v: dict) -> xarray.DataArray:
             fill = v["fill"]
             data[miss] = fill
     data = data.astype(dtype).reshape(shape)
+    if v.get("fillattr"):
+        attrs[v["fillattr"]] = numpy.dtype(dtype).type(v["fill"])
     return xarray.DataArray(data, dims=dims, attrs=attrs)
 
 
@@ -365,8 +367,17 @@ def build(w: dict) -> xarray.Dataset:
     for e in w.get("extras", []):
         if e.get("coord"):
             c = e["coord"]
-            ds = ds.assign_coords({c["name"]: xarray.DataArray(
-                numpy.asarray(c["values"], dtype=c.get("dtype", "f8")), dims=[e["name"]], attrs=c.get("attrs", {}))})
+            if c.get("kind") == "time":
+                vals = numpy.datetime64(c.get("epoch", "2000-01-01T00:00:00"), "ns") + \
+                    numpy.asarray(c["values"], dtype="int64") * numpy.timedelta64(1, "h")
+                da = xarray.DataArray(vals, dims=[e["name"]], attrs=c.get("attrs", {}))
+                da.encoding.update(c.get("encoding", {"units": "hours since 1990-01-01 00:00:00", "calendar": "proleptic_gregorian"}))
+            else:
+                da = xarray.DataArray(numpy.asarray(c["values"], dtype=c.get("dtype", "f8")), dims=[e["name"]],
+                                      attrs=c.get("attrs", {}))
+            ds = ds.assign_coords({c["name"]: da})
+            if c.get("encoding") is not None or c.get("kind") == "time":
+                ds[c["name"]].encoding.update(da.encoding)
     for v in w.get("vars", []):
         ds[v["name"]] = var_array(w, v)
     return ds
